@@ -20,6 +20,7 @@ import (
 	"bytes"
 	"encoding/binary"
 	"errors"
+	"fmt"
 	"unicode"
 	"unicode/utf16"
 
@@ -92,20 +93,28 @@ func (r *ComDoc) ListDir(parent *DirEnt) ([]*DirEnt, error) {
 		// empty storage
 		return nil, nil
 	}
-	top := &r.Files[parent.StorageRoot]
-	stack := []*DirEnt{top}
+	// The storage root and the children of each item are indices into the
+	// directory stream, but they come from the file so they can point
+	// anywhere, including back up the tree.
+	stack := []int32{parent.StorageRoot}
 	var files []*DirEnt
 	for len(stack) > 0 {
 		i := len(stack) - 1
-		item := stack[i]
+		index := stack[i]
 		stack = stack[:i]
+		if index == -1 {
+			// no child
+			continue
+		}
+		if index < 0 || int(index) >= len(r.Files) {
+			return nil, fmt.Errorf("directory entry %d does not exist", index)
+		}
+		if len(files) >= len(r.Files) {
+			return nil, errors.New("directory tree contains a loop")
+		}
+		item := &r.Files[index]
 		files = append(files, item)
-		if item.LeftChild != -1 {
-			stack = append(stack, &r.Files[item.LeftChild])
-		}
-		if item.RightChild != -1 {
-			stack = append(stack, &r.Files[item.RightChild])
-		}
+		stack = append(stack, item.LeftChild, item.RightChild)
 	}
 	return files, nil
 }
